@@ -100,18 +100,27 @@ func (l *sessionManager) RemoveLock(name string, key string, sessionId string) {
 	if locks == nil {
 		panic(fmt.Sprintf("Client with session id '%s' has a nil session entry", sessionId))
 	}
-	if len(locks) == 0 {
+
+	// The lock is not necessarily held by the session that is removing it: any client that knows
+	// the key may unlock it, and locks loaded from the state file belong to sessions of a previous
+	// run. Remove it from whichever session holds it.
+	removed := false
+	for sid, locks := range l.sessionLocks {
+		newSlice := make([]cl.Lock, 0, len(locks))
+		for _, l := range locks {
+			if l.Name() == name && l.Key() == key {
+				continue
+			}
+			newSlice = append(newSlice, l)
+		}
+		if len(newSlice) != len(locks) {
+			l.sessionLocks[sid] = newSlice
+			removed = true
+		}
+	}
+	if !removed {
 		return
 	}
-
-	newSlice := make([]cl.Lock, 0, len(locks)-1)
-	for _, l := range locks {
-		if l.Name() == name && l.Key() == key {
-			continue
-		}
-		newSlice = append(newSlice, l)
-	}
-	l.sessionLocks[sessionId] = newSlice
 
 	if err := l.Save(); err != nil {
 		panic(err)
